@@ -30,7 +30,7 @@ def main():
     bb = cargo_build(res, os.path.join(V, 'harness', 'bb'), 'bb')
     if a.replay:
         r = json.load(open(a.replay)); print(json.dumps(r, indent=1)); return 1
-    step_translate(res, ['ordered_wire', 'rope'])
+    step_translate(res, ['ordered_wire', 'rope', 'arith_ordered', 'arith_rope'])
     step_proofs(res, PROP, ['props/C08.vo'])
     if a.tier == 'thorough':
         coqchk(res, ['Props.C08'])
